@@ -7,6 +7,8 @@ R9.2  ambient values (id(), hash(), clocks, random, uuid, cwd, environment, temp
 R9.3  process-global mutable state written on the generation path is enumerated
 R9.4  the diff treats a file that would be generated but is missing from the existing tree as a difference
 R9.5  differences raise (every _show_diffs result feeds the raise)  [shared with C10/R10.5]
+R9.8  compare-only generation compares every directory it would write: the client package always, the core for every
+      layout in which it is not contained in the client package (guard evaluated by the path algebra of C11)  [= R10.6]
 R9.6  compare-only generation sees the shared core's exception registry (seeded read-only from the real core)
 R9.7  the two generation branches are siblings: same emitter sequence, each emit once; emit-time renaming of
       IR names is idempotent (records and re-tests the final name)
@@ -254,6 +256,9 @@ def run(repo: Repo, rep: Report, tier: str) -> None:
         rep.violation("R9.6", f"{gen.module.relpath}:generate registry seeding", f"{gen.fq}|registry-not-seeded",
                       "compare-only generation starts with an empty exception registry: for a core shared by several clients the regenerated "
                       "exception_aliases.py / core __init__ differ from the existing ones and an up-to-date tree fails with 'Differences found'", gen.loc(sw))
+
+    # R9.8 the compare covers the core wherever it lives (shared with C10/R10.6)
+    c10.diff_coverage(repo, rep, "R9.8", gen, diff_body)
 
     # R9.7b emit-time renaming of IR names must be idempotent (test, loop, record)
     _idempotent_renames(repo, rep)
